@@ -351,3 +351,30 @@ pub fn webpki_verify(leaf: &[u8], intermediates: &[Vec<u8>], trust: &[Vec<u8>], 
 pub fn webpki_supports(a: SigAlg) -> bool {
 	!matches!(a, SigAlg::EcdsaSha512)
 }
+
+/// webpki path validation of `leaf` directly under `trust` with revocation checking against `crl_der`.
+pub fn webpki_verify_with_crl(leaf: &[u8], trust: &[u8], crl_der: &[u8], at_unix: i64) -> Result<Verdict, String> {
+	use pki_types::{CertificateDer, UnixTime};
+	let anchor_der = CertificateDer::from(trust);
+	let anchor = webpki::anchor_from_trusted_cert(&anchor_der).map_err(|e| format!("anchor: {:?}", e))?;
+	let leaf_der = CertificateDer::from(leaf);
+	let ee = match webpki::EndEntityCert::try_from(&leaf_der) {
+		Ok(e) => e,
+		Err(e) => return Ok(Err(format!("EndEntityCert: {:?}", e))),
+	};
+	let crl: webpki::CertRevocationList = webpki::BorrowedCertRevocationList::from_der(crl_der).map_err(|e| format!("crl: {:?}", e))?.into();
+	let crls = [&crl];
+	let rev = webpki::RevocationOptionsBuilder::new(&crls)
+		.map_err(|_| "no crls".to_string())?
+		.with_depth(webpki::RevocationCheckDepth::EndEntity)
+		.with_status_policy(webpki::UnknownStatusPolicy::Deny)
+		.build();
+	let time = UnixTime::since_unix_epoch(std::time::Duration::from_secs(at_unix.max(0) as u64));
+	let anchors = [anchor];
+	let r = ee.verify_for_usage(webpki::ALL_VERIFICATION_ALGS, &anchors, &[], time, webpki::KeyUsage::server_auth(), Some(rev), None);
+	let v = match r {
+		Ok(_) => Ok(()),
+		Err(e) => Err(format!("{:?}", e)),
+	};
+	Ok(v)
+}
